@@ -1280,6 +1280,7 @@ orc_neon_save_accumulators (OrcCompiler *compiler)
                 code |= (src&0xf) << 12;
                 code |= ((src>>4)&0x1) << 22;
                 code |= (src&0xf) << 0;
+                code |= ((src>>4)&0x1) << 5;
                 orc_arm_emit (compiler, code);
 
                 ORC_ASM_CODE(compiler,"  vpaddl.u32 %s, %s\n",
@@ -1289,6 +1290,7 @@ orc_neon_save_accumulators (OrcCompiler *compiler)
                 code |= (src&0xf) << 12;
                 code |= ((src>>4)&0x1) << 22;
                 code |= (src&0xf) << 0;
+                code |= ((src>>4)&0x1) << 5;
                 orc_arm_emit (compiler, code);
               }
             }
